@@ -118,6 +118,7 @@ impl Monitor {
                 let t0 = Instant::now();
                 let mut last = rec::data_events();
                 let mut snap: Vec<u64> = stats.iter().map(|s| s.calls.load(Ordering::SeqCst)).collect();
+                let mut parked: Option<(Instant, Vec<(i32, u64)>)> = None;
                 while !s2.load(Ordering::SeqCst) {
                     std::thread::sleep(Duration::from_millis(5));
                     if CANCELLED.load(Ordering::SeqCst) {
@@ -127,6 +128,7 @@ impl Monitor {
                     if now != last {
                         last = now;
                         snap = stats.iter().map(|s| s.calls.load(Ordering::SeqCst)).collect();
+                        parked = None;
                         continue;
                     }
                     let live: Vec<usize> = (0..stats.len()).filter(|&i| !stats[i].dropped.load(Ordering::SeqCst)).collect();
@@ -149,6 +151,34 @@ impl Monitor {
                         st2.store(true, Ordering::SeqCst);
                         token.cancel();
                         break;
+                    }
+                    // Blocked-forever rule (MTGraph): every thread named after a live
+                    // block sleeps (state S) without a single wake-up for 5 s while no
+                    // data moves. All waits of the library are 100 ms timed waits, so a
+                    // healthy parked thread blocks again ten times a second; see
+                    // util::Supervised. Such threads cannot be woken by the token
+                    // either: report and leave the process.
+                    let names: Vec<String> = live.iter().map(|&i| stats[i].name.lock().unwrap().clone()).collect();
+                    let tids = tasks_named(&names);
+                    let asleep: Vec<(i32, u64)> = tids.iter().filter_map(|&t| task_stat(t).and_then(|(st, v)| if st == 'S' { Some((t, v)) } else { None })).collect();
+                    if !tids.is_empty() && asleep.len() == tids.len() {
+                        match &parked {
+                            Some((p0, v0)) if *v0 == asleep => {
+                                if p0.elapsed() >= Duration::from_secs(5) {
+                                    if let Some((prop, case)) = FATAL_CTX.lock().unwrap().clone() {
+                                        fatal_violation(
+                                            &prop,
+                                            &format!("{prop}|block-threads-blocked-forever"),
+                                            &format!("run() cannot return: no data moved and every remaining block thread {names:?} slept without a single wake-up for 5 s ((tid, voluntary context switches) {asleep:?}); the library's waits are 100 ms timed waits; case {case}"),
+                                            case,
+                                        );
+                                    }
+                                }
+                            }
+                            _ => parked = Some((Instant::now(), asleep)),
+                        }
+                    } else {
+                        parked = None;
                     }
                     if t0.elapsed() > wall {
                         w2.store(true, Ordering::SeqCst);
